@@ -247,6 +247,12 @@ func (state *RuntimeState) VIPPollCheckHandler(w http.ResponseWriter, r *http.Re
 		state.writeFailureResponse(w, r, http.StatusPreconditionFailed, "Error parsing form")
 		return
 	}
+	if pushTransaction.ExpiresAt.Before(time.Now()) {
+		// expired transactions are only removed by the periodic cleanup
+		logger.Printf("VIPPollCheckHandler: push transaction expired")
+		state.writeFailureResponse(w, r, http.StatusPreconditionFailed, "Push transaction expired")
+		return
+	}
 	valid, err := state.Config.SymantecVIP.Client.VipPushHasBeenApproved(pushTransaction.TransactionID)
 	if err != nil {
 		logger.Println(err)
